@@ -72,7 +72,7 @@ REGISTRY = {
     "C25": dict(_design_prop(OD2.oracle_c25), correspondence=[i8_pipeline.corr_pipeline]),
     "C26": dict(_design_prop(OD2.oracle_c26, quick=50), correspondence=[i8_pipeline.corr_pipeline]),
     "C29": _design_prop(OD2.oracle_c29),
-    "C01": dict(_design_prop(OD.oracle_c01, quick=50), correspondence=[i7_layout.corr_kinarow, i8_pipeline.corr_pipeline, i10_implied.corr_implied],
+    "C01": dict(_design_prop(OD.oracle_c01, quick=75), correspondence=[i7_layout.corr_kinarow, i8_pipeline.corr_pipeline, i10_implied.corr_implied],
                 oracle=[OD.oracle_c01_latin, OD.oracle_c01, i7_layout.oracle_kinarow]),
     "C02": dict(_design_prop(OD.oracle_c02, quick=50), correspondence=[i8_pipeline.corr_pipeline]),
     "C03": dict(_design_prop(OD.oracle_c03, quick=50), correspondence=[i8_pipeline.corr_pipeline]),
